@@ -109,6 +109,61 @@ def formatter_case(old_src, new_src, leafvals, approved):
     return True
 
 
+def _typed_equal(a, b):
+    """equal and of the same types all the way down (True is not 1, a tuple is not a list)"""
+    if type(a) is not type(b):
+        return False
+    if isinstance(a, (tuple, list)):
+        if len(a) != len(b):
+            return False
+        for x, y in zip(a, b):
+            if not _typed_equal(x, y):
+                return False
+        return True
+    if isinstance(a, dict):
+        if len(a) != len(b):
+            return False
+        for (k1, v1), (k2, v2) in zip(a.items(), b.items()):
+            if not _typed_equal(k1, k2) or not _typed_equal(v1, v2):
+                return False
+        return True
+    return a == b
+
+
+HISTORY = {
+    "tuple_int_then_bool": ("(x0, 'k')", "(B0, 'k')"),
+    "tuple_bool_then_int": ("(B0, 'k')", "(x0, 'k')"),
+    "nested_then_flat": ("[(x0, x1)]", "[(B0, B1)]"),
+    "leaf_int_then_bool": ("x0", "B0"),
+    "key_tuples": ("{(1, 'k'): x0}", "{(True, 'k'): B0}"),
+    "same_twice": ("(x0, 'k')", "(x1, 'k')"),
+}
+
+
+def history_case(hname, x0, x1, b0, b1, first_runs):
+    """the text written for a value does not depend on what was generated earlier in the session: a second snapshot in
+    the same file gets an argument that evaluates to its own value with its own types, whether or not the first
+    snapshot was generated before it"""
+    ea, eb = HISTORY[hname]
+    ns = {"x0": x0, "x1": x1, "B0": True if b0 else False, "B1": True if b1 else False, "first_runs": True if first_runs else False}
+    world.reset(ns)
+    t = HEAD + f"def test_a():\n    if first_runs:\n        assert {ea} == snapshot()\n\n\ndef test_b():\n    assert {eb} == snapshot()\n"
+    r = world.core_session(t, {"create"})
+    srcs = world.snapshot_arg_sources(r.text)
+    vals = world.snapshot_values(r.text)
+    PathLog.record(f"{hname}{first_runs}{srcs}", nontrivial=bool(first_runs), sample={"first_value": ea, "second_value": eb, "first_generated_before": bool(first_runs), "written": srcs})
+    want_a = eval(ea, dict(W.ns))
+    want_b = eval(eb, dict(W.ns))
+    if first_runs:
+        if vals[0] is world.MISSING or not _typed_equal(vals[0], want_a):
+            return False
+    elif vals[0] is not world.MISSING:
+        return False
+    if vals[1] is world.MISSING or not _typed_equal(vals[1], want_b):
+        return False
+    return True
+
+
 def hash_seed_processes():
     """contract validation: two real pytest processes with different PYTHONHASHSEED create identical files"""
     text = ("from inline_snapshot import snapshot\n\n\ndef test_a():\n    assert {'b', 'a', 'c', 'zz', 'q'} == snapshot()\n    assert frozenset({3, 1, 2}) == snapshot()\n"
@@ -124,7 +179,7 @@ def hash_seed_processes():
     return len(set(outs)) == 1 and "snapshot()" not in outs[0]
 
 
-GLB = {"set_order_case": set_order_case, "formatter_case": formatter_case, "__name__": "harness.c16"}
+GLB = {"set_order_case": set_order_case, "formatter_case": formatter_case, "history_case": history_case, "__name__": "harness.c16"}
 
 
 def conditions(tier):
@@ -163,17 +218,22 @@ def conditions(tier):
         name = f"formatter_{i}"
         conds.append(Cond(name, mkfn(name, [(x, "int") for x in names], body, GLB), timeout=900, group="formatter",
                           bounds=f"previous `{o or '<empty>'}`, observed `{n}`, approved {sorted(appr)}: rewritten under real black / black missing / identity format-command"))
+    for hname, (ea, eb) in HISTORY.items():
+        name = f"history_{hname}"
+        fn = mkfn(name, [("x0", "int"), ("x1", "int"), ("b0", "bool"), ("b1", "bool"), ("first_runs", "bool")], f"return history_case({hname!r}, x0, x1, b0, b1, first_runs)", GLB, pre=["-2 <= x0 <= 2", "-2 <= x1 <= 2"])
+        conds.append(Cond(name, fn, timeout=600, group="history",
+                          bounds=f"one file, two tests creating `{ea}` then `{eb}` (ints in -2..2 and bools symbolic, so equal-but-differently-typed pairs are included); the first generated or not (symbolic)"))
     conds.append(Cond("setorder_twin", mkfn("setorder_twin", [("e0", "int"), ("e1", "int"), ("perm", "int")], "return set_order_case(2, [e0, e1], perm, 'set', False)", GLB, pre=["e0 != e1", "0 <= perm < 2"], post="not _"), timeout=60, twin=True))
     conds.append(Cond("hash_seed_processes", hash_seed_processes, concrete=True, group="contract-validation", bounds="5 real pytest processes (PYTHONHASHSEED 0 / 1 / 2 / 3 / 12345) creating sets of str/int/tuple/bytes/complex and nested frozensets of strs (orderable and not orderable): byte-identical files"))
     return conds
 
 
 META = {
-    "bounds": {"quick": "sets of <=4 distinct symbolic ints (optionally mixed with strs) under all permutations of the iteration order; 12 data shapes (6 with concrete string/bytes leaves) under 3 formatter configurations",
+    "bounds": {"quick": "sets of <=4 distinct symbolic ints (optionally mixed with strs) under all permutations of the iteration order; 12 data shapes (6 with concrete string/bytes leaves) under 3 formatter configurations; 6 pairs of values (equal but differently typed ones included) generated one after the other in one session",
                "thorough": "sets of <=5 elements"},
     "outside": "real different interpreter processes are only the contract-validation item; dict iteration order is insertion order by the language (the written order is the value's own order)",
     "assumptions": ["an arbitrary hash seed is modelled as an arbitrary iteration order of the set (the code only iterates)",
                     "stub: repr of a symbolic int is a name token (canonical c<k>); subprocess.run of the format-command is an identity stub; a missing black is simulated by sys.modules['black'] = None"],
 }
 
-world.prewarm(lambda: set_order_case(3, [3, 1, 2], 4, "set", False), lambda: formatter_case("[c0, c1]", "[n0, n1, n2]", {"c0": 1, "c1": 2, "n0": 1, "n1": 5, "n2": 6}, {"fix"}))
+world.prewarm(lambda: history_case("tuple_int_then_bool", 1, 0, True, False, True), lambda: set_order_case(3, [3, 1, 2], 4, "set", False), lambda: formatter_case("[c0, c1]", "[n0, n1, n2]", {"c0": 1, "c1": 2, "n0": 1, "n1": 5, "n2": 6}, {"fix"}))
